@@ -25,7 +25,7 @@ var c10 struct {
 	t        *simrt.Tape
 	rate     int // injection probability per hook call, in 1/10000
 	active   bool
-	kinds    [9]int
+	kinds    [10]int
 	hookDec  int
 	hookEnc  int
 	hookCb   int
@@ -34,10 +34,12 @@ var c10 struct {
 	traceBad string
 	bg       chan struct{}
 	bgBusy   bool
+	stkReq   chan struct{}
+	stkRes   chan string
 	depth    int
 }
 
-var c10EventNames = []string{"gc", "grow", "grow+gc(shrink)", "traceback", "gosched", "bg-gc-cycle", "debug.Stack", "alloc-churn", "block-profile-sample(fp-unwind)"}
+var c10EventNames = []string{"gc", "grow", "grow+gc(shrink)", "traceback", "gosched", "bg-gc-cycle", "debug.Stack", "alloc-churn", "block-profile-sample(fp-unwind)", "all-goroutines-stack-from-another-goroutine"}
 
 func initC10(cfg map[string]string) {
 	debug.SetGCPercent(-1) // only simulated collections happen
@@ -52,6 +54,16 @@ func initC10(cfg map[string]string) {
 		for range c10.bg {
 			runtime.GC()
 			c10.bgBusy = false
+		}
+	}()
+	// helper that takes an all-goroutines traceback while the client is parked inside a
+	// generated frame or a callback (unwinding starts from the saved scheduling context)
+	c10.stkReq, c10.stkRes = make(chan struct{}), make(chan string)
+	go func() {
+		buf := make([]byte, 1<<20)
+		for range c10.stkReq {
+			n := runtime.Stack(buf, true)
+			c10.stkRes <- string(buf[:n])
 		}
 	}()
 }
@@ -165,6 +177,20 @@ func c10Event(where int, op, next int) {
 		}
 		c10Sink = keep
 		c10Sink = nil
+	case 9:
+		// another goroutine dumps all stacks while this one is parked here
+		c10.stkReq <- struct{}{}
+		s := <-c10.stkRes
+		// our own goroutine's section must show the sentinel below the generated frames
+		if i := strings.Index(s, "main.c10Event("); i >= 0 {
+			rest := s[i:]
+			if j := strings.Index(rest, "\n\ngoroutine "); j >= 0 {
+				rest = rest[:j]
+			}
+			if !strings.Contains(rest, "main.c10Sentinel(") && !strings.Contains(rest, "additional frames elided") && c10.traceBad == "" {
+				c10.traceBad = "all-goroutines traceback taken by another goroutine stops early: " + clip(rest, 600)
+			}
+		}
 	case 8:
 		// a profile sample: the block profiler unwinds by FRAME POINTERS (not by the pc/sp
 		// tables the other tracebacks use), through the generated frames below us
